@@ -1,0 +1,33 @@
+//go:build verif
+
+// Contracts for package interpreter (comment-only; read by /verif/govc).
+
+package interpreter
+
+//@ import "fmt"
+//@ import "github.com/opsidian/parsley/ast"
+//@ import "github.com/opsidian/parsley/parsley"
+
+//@ props C13
+//@ kindprops frame=C07,C14
+
+//@ func Select(i int) (r parsley.Interpreter)
+//@   ensures  r != nil && same(r, selectInterpreter{i})
+//@   assigns  nothing
+
+//@ -- Select(i) evaluates exactly child i; an index outside the children panics by design (precondition)
+//@ func (s selectInterpreter) Eval(userCtx interface{}, node parsley.NonTerminalNode) (v interface{}, err parsley.Error)
+//@   requires node != nil && 0 <= s.i && s.i < len(node.Children()) && node.Children()[s.i] != nil && parsley.NodeOK(node.Children()[s.i])
+//@   ensures  err != nil ==> err.Pos() >= 0
+//@   assigns  fields[parsley.Node]()
+//@ func (s selectInterpreter) StaticCheck(userCtx interface{}, node parsley.NonTerminalNode) (v interface{}, err parsley.Error)
+//@   requires node != nil && 0 <= s.i && s.i < len(node.Children()) && node.Children()[s.i] != nil && parsley.NodeOK(node.Children()[s.i])
+//@   ensures  err == nil && v == node.Children()[s.i].Schema()
+//@   assigns  nothing
+
+//@ func Nil() (r ast.InterpreterFunc)
+//@   ensures  r != nil
+//@   assigns  nothing
+//@ closure Nil$1(userCtx interface{}, node parsley.NonTerminalNode) (v interface{}, err parsley.Error)
+//@   ensures  v == nil && err == nil
+//@   assigns  nothing
